@@ -34,7 +34,7 @@ pub const DEF: CheckDef = CheckDef {
     id: "C14",
     run,
     technique: "bounded-exhaustive enumeration of (prefix context x fault x include location) with generator-computed first/last/fault line of the one invalid entry in original-file numbering; the rendered error chain of the real loader/parser/book-keeper (FakeFileSystem in-process, and the in-process CLI on real files for a fixed subset) is parsed (named path, `-->` line, gutter numbers, snippet text) and compared with the generator's numbers and with the original file's lines",
-    rule: "case = (context, fault, location, fs). Context = 8 slots with a default each (leading blank lines 0-3; blank lines between preceding content and the bad entry 1/0/2/3; LF/CRLF; preceding content none/comment block/transaction/two transactions/directives/mix; multi-byte marker none/2-/3-/4-byte UTF-8 in preceding payees, comments, account names and inside the bad entry before the fault; following content none/transaction/transaction+comment; blank lines after the bad entry 1/0/2; final newline present/absent): all contexts with <= 2 non-default slots (thorough: ALL contexts, i.e. the full product of the 8 slots). Fault = every entry of the fault table (syntactic: bad date, bad effective date, unknown directive, malformed number / unclosed parenthesis / duplicated lot price / dangling @ / dangling = / bad lot date / trailing garbage on posting k=1..3, unindented posting, bare include, bad sub-line of account/commodity, malformed apply tag / end; semantic: unbalanced, false assertion on posting j, two omitted postings, zero rate, zero total, same-commodity cost/lot, zero lot, zero amount with cost, expression errors, `= 0` on a multi-commodity account, account/commodity alias conflicts). Location = root, or literal/glob include at depth 1/2 below a root with a short or long preamble (and, for faults needing an earlier declaration, that declaration in the bad file or in the root). Include-before-entry family: in the file of the bad entry (root or included) an `include` line precedes the entry, its target being an empty / newline-only / whitespace-only / comment-only / valid file or a glob matching blank files among valid ones (7 kinds) x all faults x contexts with <= 1 (thorough <= 2) non-default slots  x root + 4 include shapes (thorough: all locations). Binary family: the real hooks-off `okane` binary (stderr = the diagnostic) for balance, register, primitive eval (+ accounts, primitive flatten for syntax faults) x all faults x default context (thorough <= 1 non-default slot) x root + 4 include shapes (+ after an include of an empty file). Long-entry family: transactions of 2, 5, 10, 11, 12, 30 lines with the fault (false assertion, zero rate, same-commodity cost, second omitted posting, dangling @, unclosed parenthesis) on EVERY posting line incl. the last x contexts with <= 1 (thorough <= 2) non-default slots x root / literal depth 1 / glob depth 2 (thorough: all locations), plus the real binary for faults on entry line 11 and on the last line. Entry-end family (full product, no deviation bound): last line of the entry = posting / posting with inline note / `;` comment line / tag line / key-value line / comment or note line of a directive x followed by 0-3 empty lines or one whitespace-only line and then the next entry or the end of the file (also EOF without final newline) x all semantic faults and the syntactic ones not on the last line x LF/CRLF x root / literal depth 1 / glob depth 2 (thorough: all locations and markers). Per-posting syntax faults include unclosed `(` lot note, `{`, `{{`, `[` and stray closers, and all following content carries `( ) @ { } [ ] \"`. states = cases executed, transitions = line numbers + snippet lines compared",
+    rule: "case = (context, fault, location, fs). Context = 8 slots with a default each (leading blank lines 0-3; blank lines between preceding content and the bad entry 1/0/2/3; LF/CRLF; preceding content none/comment block/transaction/two transactions/directives/mix; multi-byte marker none/2-/3-/4-byte UTF-8 in preceding payees, comments, account names and inside the bad entry before the fault; following content none/transaction/transaction+comment; blank lines after the bad entry 1/0/2; final newline present/absent): all contexts with <= 2 non-default slots (thorough: ALL contexts, i.e. the full product of the 8 slots). Fault = every entry of the fault table (syntactic: bad date, bad effective date, unknown directive, malformed number / unclosed parenthesis / duplicated lot price / dangling @ / dangling = / bad lot date / trailing garbage on posting k=1..3, unindented posting, bare include, bad sub-line of account/commodity, malformed apply tag / end; semantic: unbalanced, false assertion on posting j, two omitted postings, zero rate, zero total, same-commodity cost/lot, zero lot, zero amount with cost, expression errors, `= 0` on a multi-commodity account, account/commodity alias conflicts). Location = root, or literal/glob include at depth 1/2 below a root with a short or long preamble (and, for faults needing an earlier declaration, that declaration in the bad file or in the root). Include-before-entry family: in the file of the bad entry (root or included) an `include` line precedes the entry, its target being an empty / newline-only / whitespace-only / comment-only / valid file or a glob matching blank files among valid ones (7 kinds) x all faults x contexts with <= 1 (thorough <= 2) non-default slots  x root + 4 include shapes (thorough: all locations). Binary family: the real hooks-off `okane` binary (stderr = the diagnostic) for balance, register, primitive eval (+ accounts, primitive flatten for syntax faults) x all faults x default context (thorough <= 1 non-default slot) x root + 4 include shapes (+ after an include of an empty file). Long-entry family: transactions of 2, 5, 10, 11, 12, 30 lines with the fault (false assertion, zero rate, same-commodity cost, second omitted posting, dangling @, unclosed parenthesis) on EVERY posting line incl. the last x contexts with <= 1 (thorough <= 2) non-default slots x root / literal depth 1 / glob depth 2 (thorough: all locations), plus the real binary for faults on entry line 11 and on the last line. Entry-end family (full product, no deviation bound): last line of the entry = posting / posting with inline note / `;` comment line / tag line / key-value line / comment or note line of a directive x followed by 0-3 empty lines or one whitespace-only line and then the next entry or the end of the file (also EOF without final newline) x all semantic faults and the syntactic ones not on the last line x LF/CRLF x root / literal depth 1 / glob depth 2 (thorough: all locations and markers). Scale family: the entry starts at line 255, 256, 257, 32767, 32768, 65535, 65536, 65537, 100000, 131073 of its file after that many blank lines / comment lines / valid transactions x {false assertion on posting 2, unbalanced, dangling @} x root and included file (LF), plus the real binary beyond line 65535. Per-posting syntax faults include unclosed `(` lot note, `{`, `{{`, `[` and stray closers, and all following content carries `( ) @ { } [ ] \"`. states = cases executed, transitions = line numbers + snippet lines compared",
     assumptions: &[
         "the generator's own line arithmetic (positions in a Vec of lines) is the reference; every line of a generated file is textually distinct from its neighbours, so a snippet line identifies its line number",
         "for a syntax error the allowed range is [first line of the entry, fault line]; a number after the fault line but inside the entry (or the blank line / end of file directly after it) is DON'T-CARE because the statement does not pin where a parser may stop; a number before the entry or inside another entry is a violation",
@@ -1131,8 +1131,18 @@ fn describe(s: &Slots, f: &Fault, loc: &Loc, lay: &Layout, bf: &BadFile, via: &s
         o.push_str(&format!("=== {}{} ===\n", p, if *p == lay.bad_path { "  (contains the invalid entry; shown with line numbers, \\r made visible)" } else { "" }));
         if *p == lay.bad_path {
             let mut n = 0;
+            // very long files (scale family): show the head, then from three lines before the entry on
+            let elide = if bf.lines.len() > 300 && bf.first > 12 { Some((7usize, bf.first - 3)) } else { None };
             for l in t.split('\n') {
                 n += 1;
+                if let Some((a, b)) = elide {
+                    if n == a {
+                        o.push_str(&format!("     ... lines {}..={} elided (the padding continues in the same pattern) ...\n", a, b - 1));
+                    }
+                    if n >= a && n < b {
+                        continue;
+                    }
+                }
                 o.push_str(&format!("{:>3}: {}\n", n, l.replace('\r', "\\r")));
             }
         } else {
@@ -1482,6 +1492,95 @@ fn run(ctx: &mut Ctx) {
                                 ctx.count("cases/okane-binary", 1);
                             }
                         }
+                    }
+                }
+            }
+        }
+    }
+
+    // ---- family 7: scale. The entry starts at line 255..257, 32767/32768, 65535..65537, 100000, 131073 of its file,
+    // after that many blank lines / comment lines / valid transactions (LF, root file and included file) ----
+    {
+        const STARTS: [usize; 10] = [255, 256, 257, 32767, 32768, 65535, 65536, 65537, 100000, 131073];
+        const PADS: [&str; 3] = ["blank-lines", "comment-lines", "valid-transactions"];
+        let pad_lines = |kind: usize, count: usize| -> Vec<String> {
+            let mut o: Vec<String> = Vec::with_capacity(count);
+            match kind {
+                0 => o.resize(count, String::new()),
+                1 => {
+                    // one long comment block, then one blank line
+                    for _ in 0..count - 1 {
+                        o.push("; padding comment".to_string());
+                    }
+                    o.push(String::new());
+                }
+                _ => {
+                    let k = count / 4;
+                    for _ in 0..k {
+                        o.push("2024/01/02 Pad".to_string());
+                        o.push("  Pad:A  1 X".to_string());
+                        o.push("  Pad:B".to_string());
+                        o.push(String::new());
+                    }
+                    o.resize(count, String::new());
+                }
+            }
+            o
+        };
+        let names = ["false-assertion-on-posting-2", "unbalanced", "dangling-at-on-posting-2"];
+        let scale_faults: Vec<&Fault> = names.iter().map(|n| by_mb[&0].iter().find(|f| f.name == *n).expect("harness bug: scale fault missing")).collect();
+        ctx.fact("scale_start_lines", STARTS.len() as u64);
+        let s0: Slots = [0; NSLOTS];
+        let bin = okane_binary();
+        for start in STARTS {
+            for (pk, pname) in PADS.iter().enumerate() {
+                for f in &scale_faults {
+                    // fake fs: root and literal include; real binary: root, for the starts beyond 65535 with transaction padding
+                    let mut runs: Vec<(LocKind, bool)> = vec![(LocKind::Root, false), (LocKind::Lit1, false)];
+                    if pk == 2 && (start == 65537 || start == 100000) {
+                        runs.push((LocKind::Root, true));
+                    }
+                    for (kind, binary) in runs {
+                        if !ctx.next_is_mine() {
+                            ctx.skip_cases(1);
+                            continue;
+                        }
+                        let mut lines = pad_lines(pk, start - 1);
+                        let first = lines.len() + 1;
+                        lines.extend(f.lines.iter().cloned());
+                        let last = lines.len();
+                        let mut text = lines.join("\n");
+                        text.push('\n');
+                        let bf = BadFile { lines, text, first, last, fault: first + f.fault, final_nl: true, extra: vec![] };
+                        let loc = Loc { kind, pre: 0, setup_in_root: false, incb: 0 };
+                        let mut compared = 0u64;
+                        if !binary {
+                            let lay = build_layout("/v", &loc, f, &bf);
+                            ctx.case(
+                                || describe(&s0, f, &loc, &lay, &bf, &format!("fake-fs; scale family: the entry starts at line {} after {} (context slots not used)", start, pname)),
+                                || {
+                                    let obs = observe_fake(&lay);
+                                    judge(&obs, &lay, &bf, f, &loc, "fake-fs", &mut compared)
+                                },
+                            );
+                        } else {
+                            let lay = build_layout(&format!("{}/binscale-{:?}", base, loc.kind), &loc, f, &bf);
+                            let args: Vec<String> = vec!["balance".into(), lay.root.clone()];
+                            ctx.case(
+                                || describe(&s0, f, &loc, &lay, &bf, &format!("real files, real binary (stderr), $ okane {}; scale family: the entry starts at line {} after {}", args.join(" "), start, pname)).replace(&base, "<scratch>"),
+                                || {
+                                    let obs = observe_bin(&bin, &lay, &mut made, &args);
+                                    let mut o = judge(&obs, &lay, &bf, f, &loc, "bin-balance", &mut compared);
+                                    if let crate::fw::Verdict::Violation { sig, detail } = &o.verdict {
+                                        o = Outcome::violation(sig.clone(), detail.replace(&base, "<scratch>"));
+                                    }
+                                    o
+                                },
+                            );
+                            ctx.count("cases/okane-binary", 1);
+                        }
+                        ctx.count("transitions", compared);
+                        ctx.count("cases/scale", 1);
                     }
                 }
             }
